@@ -36,7 +36,7 @@ func (s *denomSwap) HandlePacket(_ context.Context, p *types.ActionPacket) error
 	ta := p.TransferAttributes
 	s.saw = append(s.saw, sdk.Coin{Denom: ta.DestinationDenom(), Amount: ta.DestinationAmount()})
 	s.l.Set(core.ModuleAddress, ta.DestinationDenom(), math.ZeroInt())
-	s.l.Set(core.ModuleAddress, s.newDenom, s.newAmt)
+	s.l.Set(core.ModuleAddress, s.newDenom, s.l.Bal(core.ModuleAddress, s.newDenom).Add(s.newAmt)) // on top of what the account already holds
 	// (a controller may set the two attributes in either order)
 	if s.amountFirst {
 		ta.SetDestinationAmount(s.newAmt)
